@@ -193,48 +193,95 @@ def rule_dup(ctx):
               and n.func.attr == 'update']
     rep.floor('section merges', len(merges), 2)
     asserts = [n for n in A.walk_local(fn) if isinstance(n, ast.Assert)]
-    defs = flow.assigned_names(fn)
-    taken = set()    # the variable(s) holding the names already taken, bound by their role in the overlap test
+    assigns = [n for n in A.walk_local(fn) if isinstance(n, ast.Assign) and len(n.targets) == 1 and isinstance(n.targets[0], ast.Name)]
+
+    # the accumulator the sections are merged into is an object that changes: it is never replaced by its initial value
+    no_expand = {r_ for m_ in merges for r_ in A.names_in(m_.func.value)[:1]}
+
+    def latest_def(name, before):
+        c = [n for n in assigns if n.targets[0].id == name and n.lineno < before]
+        return max(c, key=lambda n: n.lineno) if c else None
+
+    def expand_at(expr, line, used, depth=6):
+        """expr with every local replaced by the value of its latest assignment before `line` (straight-line view of the
+        loop body); `used` collects the assignments substituted"""
+        if depth == 0:
+            return expr
+
+        class T(ast.NodeTransformer):
+            def visit_Name(self, nd):
+                if isinstance(nd.ctx, ast.Load) and nd.id not in no_expand:
+                    d = latest_def(nd.id, line)
+                    if d is not None and nd.id not in A.names_in(d.value):
+                        used.append(d)
+                        return expand_at(A.clone(d.value), d.lineno, used, depth - 1)
+                return nd
+        return T().visit(A.clone(expr))
+
+    def intersection_sides(e):
+        for x in ast.walk(e):
+            if isinstance(x, ast.Call) and isinstance(x.func, ast.Attribute) and x.func.attr == 'intersection':
+                if A.dotted(x.func.value) == 'set' and len(x.args) == 2:
+                    yield x.args[0], x.args[1]
+                elif len(x.args) == 1:
+                    yield x.func.value, x.args[0]
+            elif isinstance(x, ast.BinOp) and isinstance(x.op, ast.BitAnd):
+                yield x.left, x.right
+
+    def mentions_section(e, root, sect):
+        return any((isinstance(x, ast.Subscript) and _const_str(x.slice) == sect and root in A.names_in(x.value))
+                   or (isinstance(x, ast.Call) and isinstance(x.func, ast.Attribute) and x.func.attr in ('get', 'setdefault')
+                       and x.args and _const_str(x.args[0]) == sect and root in A.names_in(x.func.value))
+                   for x in ast.walk(e))
+    taken_exprs = []      # (expanded expression of the taken names, assignments it was expanded through, assert)
     for m in merges:
         incoming = m.args[0] if m.args else None
         sect = None
         for x in ast.walk(incoming) if incoming is not None else []:
             if isinstance(x, ast.Subscript) and _const_str(x.slice):
                 sect = _const_str(x.slice)
+        part = (A.names_in(incoming) or [None])[0] if incoming is not None else None
         ok = False
         polarity_bad = []
         for a in asserts:
             if a.lineno > m.lineno:
                 continue
-            # same block or enclosing block
+            # the assert is on the path to the merge
             if not all(any(g2 is g1 for g2, _b in flow.guards_of(m, fn)) for g1, _b in flow.guards_of(a, fn)):
                 continue
             # the assertion states that the overlap is EMPTY: `not dup`, `len(dup) == 0`, `dup == set()`
             t_, neg_ = A.strip_not(a.test)
-            if isinstance(t_, ast.Name) or (isinstance(t_, ast.Call) and A.dotted(t_.func) in ('len', 'bool', 'any')):
+            subject = t_
+            if isinstance(t_, ast.Name) or (isinstance(t_, ast.Call) and A.dotted(t_.func) in ('len', 'bool', 'any')) or (
+                    isinstance(t_, ast.Call) and isinstance(t_.func, ast.Attribute) and t_.func.attr == 'intersection') or (
+                    isinstance(t_, ast.BinOp)):
                 states_empty = neg_
             elif isinstance(t_, ast.Compare) and len(t_.ops) == 1:
                 rhs = t_.comparators[0]
                 zero = A.int_value(rhs) == 0 or (isinstance(rhs, ast.Call) and A.dotted(rhs.func) == 'set' and not rhs.args)
                 states_empty = zero and (isinstance(t_.ops[0], ast.Eq) != neg_)
+                subject = t_.left
+            elif isinstance(t_, ast.Call) and isinstance(t_.func, ast.Attribute) and t_.func.attr == 'isdisjoint' and len(t_.args) == 1:
+                states_empty = not neg_
+                subject = ast.BinOp(left=t_.func.value, op=ast.BitAnd(), right=t_.args[0])
             else:
                 states_empty = None
+            used = []
+            e = expand_at(subject, a.lineno, used)
+            hit = None
+            for l_, r_ in intersection_sides(e):
+                for inc_side, other in ((l_, r_), (r_, l_)):
+                    if part and sect and mentions_section(inc_side, part, sect) and not mentions_section(other, part, sect):
+                        hit = other
+            if hit is None:
+                continue
             if states_empty is False:
                 polarity_bad.append(a)
                 continue
-            names = [x.id for x in ast.walk(a.test) if isinstance(x, ast.Name)]
-            for nm in names:
-                for d in defs.get(nm, []):
-                    if getattr(d, 'lineno', 0) > a.lineno:
-                        continue
-                    s = A.src(d)
-                    others = [x.id for x in ast.walk(d) if isinstance(x, ast.Name) and x.id in defs and x.id != nm]
-                    if sect and ('[%r]' % sect) in s and ('intersection' in s or '&' in s) and others:
-                        taken.update(others)
-                        # the most recent definition before the assert must be this one
-                        later = [d2 for d2 in defs.get(nm, []) if d.lineno < getattr(d2, 'lineno', 0) <= a.lineno]
-                        if not later:
-                            ok = True
+            if states_empty is None:
+                continue
+            ok = True
+            taken_exprs.append((hit, used, a))
         rep.ob('DUP', K.key('database._merge_database_dicts', None, 'merge(%s)-preceded-by-duplicate-assert' % sect),
                ok, m, '' if ok else ('the assertion before merging the %r section demands a NON-empty overlap (`%s`)' % (
                    sect, A.short(polarity_bad[0].test, 50)) if polarity_bad else
@@ -250,31 +297,39 @@ def rule_dup(ctx):
             rep.ob('OK', 'database._merge_database_dicts::alias-section-optional(%s)' % cont, guarded, n,
                    '' if guarded else '`%s[\'alias\']` is read without testing `\'alias\' in %s`: a description without alias '
                    'section (allowed, see Database.data) raises KeyError when merged' % (cont, cont))
-    # the accumulated names contain both datasets and aliases
-    dn = [d for t in taken for d in defs.get(t, [])]
-    ok = bool(dn) and all("'datasets'" in A.src(d) and "'alias'" in A.src(d) for d in dn)
-    rep.ob('DUP', 'database._merge_database_dicts::names=datasets|aliases', ok, dn[0] if dn else fn,
-           '' if ok else 'the set of taken names must include dataset names and alias names')
-    # the taken names are current when each part is checked: parts are merged one after the other in a loop, so the
-    # name set is either computed from the accumulator inside that loop or extended there with every merged section
+    # the accumulated names contain both datasets and aliases (of the accumulator the sections are merged into)
+    acc = None
+    for m in merges:
+        r = A.names_in(m.func.value)
+        acc = r[0] if r else acc
+    ok = bool(taken_exprs) and all(mentions_section(t, acc, 'datasets') and mentions_section(t, acc, 'alias') for t, _u, _a in taken_exprs)
+    rep.ob('DUP', 'database._merge_database_dicts::names=datasets|aliases', ok, taken_exprs[0][2] if taken_exprs else fn,
+           '' if ok else 'the set of taken names must include dataset names and alias names of the accumulated description')
+    # the taken names are current when each part is checked: parts are merged one after the other in a loop, so every
+    # value read from the accumulator on the way to the overlap test is computed inside that loop (or extended there)
     loops = [l for m in merges for l in A.ancestors(m) if isinstance(l, (ast.For, ast.While))]
-    if loops and taken:
+    if loops and taken_exprs:
         loop = loops[0]
 
         def inside(n):
             return any(a is loop for a in A.ancestors(n))
-        for t in sorted(taken):
-            t_defs = [n for n in A.walk_local(fn) if isinstance(n, (ast.Assign, ast.AugAssign, ast.AnnAssign))
-                      and t in A.name_targets(n.targets[0] if isinstance(n, ast.Assign) else n.target)]
-            in_loop = [n for n in t_defs if inside(n)]
-            grows = [n for n in A.walk_local(loop) if isinstance(n, ast.Call) and isinstance(n.func, ast.Attribute)
-                     and A.is_name(n.func.value, t) and n.func.attr in ('update', 'add')]
-            ok = bool(in_loop) or len(grows) >= len([m for m in merges if inside(m)])
-            rep.ob('DUP', 'database._merge_database_dicts::taken-names-current-for-every-part(%s)' % t, ok,
-                   t_defs[0] if t_defs else fn,
-                   '' if ok else '`%s` is computed once before the merge loop and never extended in it: names merged from '
+        stale = {}
+        for _t, used, _a in taken_exprs:
+            for d in used:
+                if acc in A.names_in(d.value) and not inside(d):
+                    nm = d.targets[0].id
+                    grows = [n for n in A.walk_local(loop) if (isinstance(n, ast.Call) and isinstance(n.func, ast.Attribute)
+                                                               and A.is_name(n.func.value, nm) and n.func.attr in ('update', 'add'))
+                             or (isinstance(n, ast.AugAssign) and A.is_name(n.target, nm) and isinstance(n.op, ast.BitOr))]
+                    if len(grows) < len([m for m in merges if inside(m)]):
+                        stale[nm] = d
+        for nm, d in sorted(stale.items()):
+            rep.ob('DUP', 'database._merge_database_dicts::taken-names-current-for-every-part(%s)' % nm, False, d,
+                   '`%s` is computed once before the merge loop and never extended in it: names merged from '
                    'part k are unknown when part k+1 is checked, so duplicate dataset / alias names between two later '
-                   'parts are accepted and silently overwrite each other' % t)
+                   'parts are accepted and silently overwrite each other' % nm)
+        if not stale:
+            rep.ob('DUP', 'database._merge_database_dicts::taken-names-current-for-every-part', True, loop)
     # later parts restricted to datasets/alias
     # get_examples: alias union asserts disjoint ids
     dbc = ctx.repo.cls('database.Database')
@@ -306,26 +361,53 @@ def rule_aug(ctx):
     ge = dbc.own('get_examples').node
     params = [a.arg for a in ge.args.args][1:]
     found = False
+
+    def check_aug(site, d, keyname, valname, container, covers_all):
+        """d: the dict display built per example; keyname: loop variable holding the example id; valname: loop variable
+        holding the stored example (or None); container: the expression of the examples dict"""
+        kv = list(zip(d.keys, d.values))
+        first = kv[0][1] if kv and kv[0][0] is None else None
+        stored = first is not None and (
+            (valname is not None and A.is_name(first, valname)) or (
+                isinstance(first, ast.Subscript) and A.is_name(first.slice, keyname) and A.same(first.value, container)))
+        byk = {_const_str(k): v for k, v in kv if k is not None}
+        ok = len(kv) == 3 and stored and A.is_name(byk.get('example_id'), keyname) and A.is_name(byk.get('dataset'), params[0])
+        rep.ob('AUG', 'database.Database.get_examples::example={**stored,example_id:id,dataset:name}', ok, site,
+               '' if ok else 'each returned example must be a new dict spreading the stored example first '
+               'and then setting example_id to its key and dataset to the requested name; found ' + A.short(d, 80))
+        rep.ob('AUG', 'database.Database.get_examples::augments-every-example', covers_all, site,
+               '' if covers_all else 'the augmentation loop must range over all keys of the examples dict')
+
+    def loop_vars(target, it):
+        """-> (key variable, value variable or None, container expression, covers all entries?)"""
+        if isinstance(it, ast.Call) and isinstance(it.func, ast.Attribute) and not it.args:
+            if it.func.attr == 'keys' and isinstance(target, ast.Name):
+                return target.id, None, it.func.value, True
+            if it.func.attr == 'items' and isinstance(target, ast.Tuple) and len(target.elts) == 2 \
+                    and all(isinstance(e, ast.Name) for e in target.elts):
+                return target.elts[0].id, target.elts[1].id, it.func.value, True
+        if isinstance(it, ast.Call) and A.dotted(it.func) in ('list', 'tuple', 'sorted') and len(it.args) == 1:
+            return loop_vars(target, it.args[0])
+        if isinstance(it, (ast.Name, ast.Attribute)) and isinstance(target, ast.Name):
+            return target.id, None, it, True
+        return None
     for n in A.walk_local(ge):
-        if isinstance(n, ast.For) and isinstance(n.target, ast.Name):
+        if isinstance(n, ast.For):
+            lv = loop_vars(n.target, n.iter)
+            if lv is None:
+                continue
             for s in n.body:
-                if isinstance(s, ast.Assign) and isinstance(s.value, ast.Dict) and isinstance(s.targets[0], ast.Subscript):
+                if isinstance(s, ast.Assign) and isinstance(s.value, ast.Dict) and isinstance(s.targets[0], ast.Subscript) \
+                        and A.is_name(s.targets[0].slice, lv[0]):
                     found = True
-                    d = s.value
-                    kv = list(zip(d.keys, d.values))
-                    ok = len(kv) == 3 and kv[0][0] is None and isinstance(kv[0][1], ast.Subscript) \
-                        and A.is_name(kv[0][1].slice, n.target.id) \
-                        and A.same(kv[0][1].value, s.targets[0].value) and A.is_name(s.targets[0].slice, n.target.id)
-                    byk = {_const_str(k): v for k, v in kv if k is not None}
-                    ok = ok and A.is_name(byk.get('example_id'), n.target.id) and A.is_name(byk.get('dataset'), params[0])
-                    rep.ob('AUG', 'database.Database.get_examples::example={**stored,example_id:id,dataset:name}', ok, s,
-                           '' if ok else 'each returned example must be a new dict spreading the stored example first '
-                           'and then setting example_id to its key and dataset to the requested name; found ' + A.short(d, 80))
-                    # loop covers all keys
-                    itok = isinstance(n.iter, ast.Call) and isinstance(n.iter.func, ast.Attribute) \
-                        and n.iter.func.attr == 'keys' and A.same(n.iter.func.value, s.targets[0].value)
-                    rep.ob('AUG', 'database.Database.get_examples::augments-every-example', itok, n,
-                           '' if itok else 'the augmentation loop must range over all keys of the examples dict')
+                    check_aug(s, s.value, lv[0], lv[1], s.targets[0].value,
+                              lv[3] and A.same(lv[2], s.targets[0].value) and not flow.enclosing_guards(s, n))
+        if isinstance(n, ast.DictComp) and isinstance(n.value, ast.Dict) and len(n.generators) == 1:
+            g_ = n.generators[0]
+            lv = loop_vars(g_.target, g_.iter)
+            if lv is not None and A.is_name(n.key, lv[0]):
+                found = True
+                check_aug(n, n.value, lv[0], lv[1], lv[2], lv[3] and not g_.ifs)
     if not found:
         raise AnalysisError('undecidable shape: augmentation loop of get_examples not found')
     # the non-alias branch copies the dataset dict before augmenting
